@@ -551,6 +551,9 @@ func (in *inst) Check() (string, string) {
 	if in.pending != "" {
 		return in.sig(in.pending), in.pwhat
 	}
+	if os.Getenv("VERIF_DEBUG") != "" {
+		fmt.Println("after closure:", in.computeKey())
+	}
 	// routing entries
 	for i := range in.nodes {
 		rem := in.remoteEntries(i)
